@@ -90,33 +90,63 @@ Conds ==      [k : {"prefix"}, set : PsNames, opt : {"any", "invert"}]
          \cup [k : {"community"}, set : CsNames, opt : {"any", "all", "invert"}]
          \cup [k : {"aslen"}, cmp : {"eq", "ge", "le"}, n : {0, 1, 2}]
 
-Route == [p : Prefixes, ap : ApNames, cm : Comms]
+\* MED of the route: NoMed or a number on a scale where MedMax stands for 2^32 - 1 (TLC integers are 32-bit; the replay maps
+\* values above 500 to 2^32 - 1 - (MedMax - m)).  Only the "act" mode varies it.
+MedMax == 1000
+NoMed == 2000                     \* the route has no MED
+Meds == {NoMed, 5, 995}
+Route == [p : Prefixes, ap : ApNames, cm : Comms, med : Meds]
 
-Holds(cd, r, lp, cm) ==
+\* the AS_PATH a later statement sees: `pre` copies of PrependAs in front (an AS_PATH is created if there was none)
+PrependAs == 65009
+RECURSIVE Rep(_, _)
+Rep(x, n) == IF n = 0 THEN <<>> ELSE << x >> \o Rep(x, n - 1)
+PathSeen(r, pre) == IF pre = 0 THEN AsPaths[r.ap] ELSE << [t |-> "seq", as |-> Rep(PrependAs, pre)] >> \o AsPaths[r.ap]
+
+HoldsP(cd, r, cm, pre) ==
   CASE cd.k = "prefix"    -> IF cd.opt = "any" THEN PrefixSetMatch(cd.set, r.p) ELSE ~PrefixSetMatch(cd.set, r.p)
-    [] cd.k = "aspath"    -> LET M(x) == PatMatch(x, AsPaths[r.ap]) IN SetOpt(cd.opt, AsPathSets[cd.set], M)
+    [] cd.k = "aspath"    -> LET M(x) == PatMatch(x, PathSeen(r, pre)) IN SetOpt(cd.opt, AsPathSets[cd.set], M)
     [] cd.k = "community" -> LET M(x) == x \in cm IN SetOpt(cd.opt, CommSets[cd.set], M)
-    [] cd.k = "aslen"     -> LET h == HopCount(AsPaths[r.ap]) IN
-                             r.ap # "none" /\
+    [] cd.k = "aslen"     -> LET h == HopCount(PathSeen(r, pre)) IN
+                             (r.ap # "none" \/ pre > 0) /\
                              CASE cd.cmp = "eq" -> h = cd.n [] cd.cmp = "ge" -> h >= cd.n [] cd.cmp = "le" -> h <= cd.n
+
+Holds(cd, r, lp, cm) == HoldsP(cd, r, cm, 0)
 
 \* ---- statements, policies ---------------------------------------------------
 \* statement: [conds : set of conditions, disp : "none"|"accept"|"reject", act : "none"|"lp200"|"addc3"]
 \* evaluation state: [d (disposition so far), lp ("keep" = untouched), cm]
+\* actions: lp200 set LOCAL_PREF 200; addc3 add community 3; commset replace the communities by {4}; commrm remove community 1;
+\* medadd MED + 50 (saturating at 2^32 - 1, an absent MED counts 0); medsub MED - 10 (not below 0); medset MED := 7;
+\* prep2 prepend PrependAs twice.  (A next-hop action is not accepted in an import assignment; export policies set it, C09.)
+Acts == {"none", "lp200", "addc3", "commset", "commrm", "medadd", "medsub", "medset", "prep2"}
+MedNum(m) == IF m = NoMed THEN 0 ELSE m
+Min(a, b) == IF a < b THEN a ELSE b
 ApplyStmt(st, r, ev) ==
   IF ev.d # "pass" THEN ev
-  ELSE IF \A cd \in st.conds : Holds(cd, r, ev.lp, ev.cm)
-       THEN [d  |-> IF st.disp = "none" THEN "pass" ELSE st.disp,
-             lp |-> IF st.act = "lp200" THEN 200 ELSE ev.lp,
-             cm |-> IF st.act = "addc3" THEN ev.cm \cup {3} ELSE ev.cm]
+  ELSE IF \A cd \in st.conds : HoldsP(cd, r, ev.cm, ev.pre)
+       THEN [d   |-> IF st.disp = "none" THEN "pass" ELSE st.disp,
+             lp  |-> IF st.act = "lp200" THEN 200 ELSE ev.lp,
+             cm  |-> CASE st.act = "addc3" -> ev.cm \cup {3} [] st.act = "commset" -> {4} [] st.act = "commrm" -> ev.cm \ {1}
+                       [] OTHER -> ev.cm,
+             med |-> CASE st.act = "medadd" -> Min(MedMax, MedNum(ev.med) + 50)
+                       [] st.act = "medsub" -> (IF MedNum(ev.med) < 10 THEN 0 ELSE MedNum(ev.med) - 10)
+                       [] st.act = "medset" -> 7
+                       [] OTHER -> ev.med,
+             pre |-> IF st.act = "prep2" THEN ev.pre + 2 ELSE ev.pre,
+             nh  |-> IF st.act = "nhset" THEN "policy" ELSE ev.nh]
        ELSE ev
 
 RECURSIVE RunStmts(_, _, _)
 RunStmts(q, r, ev) == IF q = <<>> THEN ev ELSE RunStmts(Tail(q), r, ApplyStmt(Head(q), r, ev))
 
 Eval(pol, r) ==
-  LET ev == RunStmts(pol.stmts, r, [d |-> "pass", lp |-> 0, cm |-> r.cm]) IN
-  [d  |-> IF ev.d = "pass" THEN pol.default ELSE ev.d, lp |-> ev.lp, cm |-> ev.cm]
+  LET ev == RunStmts(pol.stmts, r, [d |-> "pass", lp |-> 0, cm |-> r.cm, med |-> r.med, pre |-> 0, nh |-> "orig"]) IN
+  [d  |-> IF ev.d = "pass" THEN pol.default ELSE ev.d, lp |-> ev.lp, cm |-> ev.cm, med |-> ev.med,
+   \* the AS_PATH of an accepted route: hop count and leftmost AS (0 = the path is empty or absent)
+   hops |-> HopCount(PathSeen(r, ev.pre)),
+   first |-> (LET f == FlatAs(PathSeen(r, ev.pre)) IN IF f = <<>> THEN 0 ELSE f[1]),
+   nh |-> ev.nh]
 
 \* ---- the cases --------------------------------------------------------------
 S(cs, d, a) == [conds |-> cs, disp |-> d, act |-> a]
@@ -132,10 +162,20 @@ ChainStmts ==
     S({[k |-> "aspath", set |-> "as3", opt |-> "all"]}, "reject", "addc3") }
 ChainPolicies == {[stmts |-> << a, b >>, default |-> d] : a \in ChainStmts, b \in ChainStmts, d \in {"accept", "reject"}}
 
-Policies == IF Mode = "cond" THEN CondPolicies ELSE ChainPolicies
-ChainRoutes == {r \in Route : r.p.len \in {2, 3} /\ r.p.val \in {0, 1, 2, 7}}
+\* "act" mode: every pair of action statements (accumulation: the second sees what the first did), with two conditional
+\* statements that read what an earlier action wrote
+ActStmts == {S({}, "none", a) : a \in Acts \ {"none"}}
+            \cup {S({[k |-> "aslen", cmp |-> "ge", n |-> 2]}, "reject", "none"),
+                  S({[k |-> "community", set |-> "cs1", opt |-> "any"]}, "reject", "none"),
+                  S({[k |-> "aspath", set |-> "as2", opt |-> "invert"]}, "accept", "medadd")}
+ActPolicies == {[stmts |-> << a, b >>, default |-> "accept"] : a \in ActStmts, b \in ActStmts}
 
-Init == c \in [pol : Policies, r : IF Mode = "cond" THEN Route ELSE ChainRoutes]
+Policies == CASE Mode = "cond" -> CondPolicies [] Mode = "chain" -> ChainPolicies [] Mode = "act" -> ActPolicies
+ChainRoutes == {r \in Route : r.p.len \in {2, 3} /\ r.p.val \in {0, 1, 2, 7} /\ r.med = NoMed}
+ActRoutes == {r \in Route : r.p = [len |-> 2, val |-> 1] /\ r.ap \in {"empty", "a1", "a21", "s1", "none"} /\ r.cm \in {{}, {1}, {1, 2}}}
+
+Init == c \in [pol : Policies, r : CASE Mode = "cond" -> {r \in Route : r.med = NoMed} [] Mode = "chain" -> ChainRoutes
+                                      [] Mode = "act" -> ActRoutes]
 Next == UNCHANGED c
 Spec == Init /\ [][Next]_c
 
@@ -143,7 +183,8 @@ Spec == Init /\ [][Next]_c
 Sane ==
   LET e == Eval(c.pol, c.r) IN
   /\ e.d \in {"accept", "reject"}
-  /\ r_cm_kept :: (c.r.cm \subseteq e.cm)
+  /\ (Mode # "act" => c.r.cm \subseteq e.cm)
+  /\ (e.med = NoMed \/ e.med \in 0..MedMax)
   /\ (Mode = "cond" =>
         LET cd == CHOOSE x \in c.pol.stmts[1].conds : TRUE IN
         (e.d = "reject") <=> Holds(cd, c.r, 0, c.r.cm))
